@@ -333,11 +333,11 @@ def _generate_task_from_yield(tasks, func_name, task_dict, gen_doc):
             group_task.has_subtask = True
             previous = tasks.get(basename)
             if previous is not None:
-                if not previous.has_subtask:
+                # only the group task created on behalf of sub-tasks yielded
+                # before the definition can be taken over
+                if not getattr(previous, '_implicit_group', False):
                     raise InvalidTask(msg_dup % (func_name, basename))
-                # group defined after (some of) its sub-tasks: keep them
                 group_task.task_dep.extend(previous.task_dep)
-                group_task.subtask_of = previous.subtask_of
             tasks[basename] = group_task
             return
         if not isinstance(task_dict['name'], str):
@@ -359,6 +359,7 @@ def _generate_task_from_yield(tasks, func_name, task_dict, gen_doc):
                 raise InvalidTask(msg_dup % (func_name, basename))
         else:
             group_task = Task(basename, None, doc=gen_doc, has_subtask=True)
+            group_task._implicit_group = True
             tasks[basename] = group_task
         group_task.task_dep.append(sub_task.name)
         tasks[sub_task.name] = sub_task
